@@ -210,7 +210,24 @@ class CallMixin:
             return self.call_function(st, ctx[1], fnode, args, kwargs, node, mi=ctx[0], closure_env=dict(st.locals))
         if kind == "opaque_attr":
             return self.call_opaque(fv.z[1], fv.z[2], args, kwargs, st, node)
+        if kind == "emitter":
+            return self.call_emitter(fv.z[1], fv.z[2], args, kwargs, st, node)
         raise Unsupported(f"call of python-level {kind}: {self.src(node)}")
+
+    def call_emitter(self, recv, attr, args, kwargs, st, node):
+        """pyee API on a repo class.  emit(name, ...) is observable: when the class sidecar declares the ghost field
+        `emitted: list[str]` the event name is appended to it (the run-time reading records real emit() calls the
+        same way).  Listeners are assumed not to re-enter the object (A-EXT); other emitter methods are effect-free."""
+        if attr == "emit" and args and isinstance(args[0].t, TStr) and isinstance(recv.t, TObj):
+            ft = self.field_type(recv.t.cls, "emitted")
+            if ft is not None and isinstance(ft[1], TList):
+                lst = self.read_field(st, recv.z, ft[0], "emitted", ft[1])
+                th = theory_of(lst.t)
+                self.set_list_content(st, lst, th.App(self.list_content(st, lst), th.Unit(box(args[0]))))
+                self.note_assumption("emit(): listeners assumed not to re-enter the emitting object")
+                return V(BOOL, z3.Bool(fresh_name("had_listeners")))
+        self.note_assumption(f"event-emitter call .{attr}() assumed effect-free and non-raising")
+        return fresh(ANY, "opaque")
 
     def call_opaque(self, recv, attr, args, kwargs, st, node):
         """Method of an opaque object (timer handle, event emitter, asyncio object): assumed to
@@ -416,6 +433,9 @@ class CallMixin:
                 tmp = pre.copy()
                 if cond is None:
                     flag = z3.Bool(fresh_name("raises_" + exc))
+                elif cond.startswith("?"):
+                    # necessary condition only: it may raise, and if it does the condition holds
+                    flag = z3.And(z3.Bool(fresh_name("raises_" + exc)), self.ev_spec(cond[1:], tmp))
                 else:
                     flag = self.ev_spec(cond, tmp)
                 rs = post.copy()
